@@ -119,6 +119,7 @@ func checkC06(c *Ctx) {
 	c06DeliverNonNil(c)
 	c06DisconnectObserved(c)
 	c06ReaderNotThrottled(c)
+	c06TerminateOnRequest(c)
 	// a lock shared by all sessions held across a write that the peer paces stalls every other client
 	if _, guard := streamTableAndGuard(c); guard != "" {
 		streamWriteNotUnder(c, "R-table-lock-free-write", guard, "listening-stream table")
@@ -987,8 +988,14 @@ func c06NilMapWrite(c *Ctx) {
 				return ""
 			}
 			root := rootOf(fa.X)
-			al, ok := root.(*ssa.Alloc)
-			if !ok {
+			var al ssa.Value
+			if a, ok := root.(*ssa.Alloc); ok {
+				al = a
+			} else if p, ok := root.(*ssa.Parameter); ok && fn.Name() == "UnmarshalJSON" && fn.Signature.Recv() != nil && len(fn.Params) > 0 && p == fn.Params[0] {
+				// the receiver of a json.Unmarshaler is a value the decoder has just allocated: its members are what
+				// this very method makes of them
+				al = p
+			} else {
 				return "" // a member of an object that outlives the call: initialised by its constructor
 			}
 			// a member of a struct local to this function: some store to that member must dominate the use
@@ -999,15 +1006,33 @@ func c06NilMapWrite(c *Ctx) {
 				if !ok {
 					return
 				}
-				if fa2, ok := st.Addr.(*ssa.FieldAddr); ok && rootOf(fa2.X) == ssa.Value(al) {
+				if fa2, ok := st.Addr.(*ssa.FieldAddr); ok && rootOf(fa2.X) == al {
 					if fr2, _, _ := ir.FieldOf(fa2); fr2.Name == fr.Name && flow.Dominates(st, at) {
 						if k, isConst := st.Val.(*ssa.Const); !isConst || !k.IsNil() {
 							stored = true
 						}
 					}
+					// `if x.m == nil { x.m = make(…) }` before the use: non-nil on both edges
+					if fr2, _, _ := ir.FieldOf(fa2); fr2.Name == fr.Name {
+						if k, isConst := st.Val.(*ssa.Const); !isConst || !k.IsNil() {
+							for _, g := range flow.Guards(fn, st.Block()) {
+								gv, op, ok := nilCompare(g.If.Cond)
+								if !ok || (op == token.EQL) != g.Branch || !flow.Dominates(g.If, at) {
+									continue
+								}
+								if gl, ok := gv.(*ssa.UnOp); ok {
+									if gfa, ok := gl.X.(*ssa.FieldAddr); ok && rootOf(gfa.X) == al {
+										if gfr, _, _ := ir.FieldOf(gfa); gfr.Name == fr.Name {
+											stored = true
+										}
+									}
+								}
+							}
+						}
+					}
 				}
 				// the whole struct stored at once (composite literal / copy)
-				if st.Addr == ssa.Value(al) && flow.Dominates(st, at) {
+				if st.Addr == al && flow.Dominates(st, at) {
 					if _, isAlloc := st.Val.(*ssa.Alloc); !isAlloc {
 						stored = true
 					}
